@@ -178,7 +178,7 @@ def lhs_kill_rule(ctx, rid, classes=None, out_of_fragment=None):
             wp = written_params(fn)
             if not wp or fn["name"] in ("forget", "intrinsic", "backward_intrinsic", "operator-=", "set_to_bottom"):
                 continue
-            if fn["name"].startswith("weak_") or fn["name"].startswith("array_"):
+            if fn["name"].startswith("weak_") or (fn["name"].startswith("array_") and fn["name"] != "array_load"):
                 # weak updates join with the old value (nothing is killed); array variables live in the array
                 # domains' own maps (C14)
                 continue
